@@ -39,6 +39,8 @@ class Report:
         self.configs = []
         self.explanation = ""
         self.selftest = None
+        self.cfg = None          # non-default feature configuration being re-checked (thorough tier)
+        self.cfg_na = {}         # cfg -> set("rule|key") reviewed as not applicable because the feature is compiled out
 
     # ---------------------------------------------------------------- recording
     def inst(self, rule, key, verdict, where="", detail="", trivial=False, cls=None):
@@ -51,12 +53,21 @@ class Report:
 
     def _rn(self, rule):
         """rules shared between properties are reported under the property being checked"""
-        return rule if rule.startswith(self.prop) else "%s/%s" % (self.prop, rule)
+        r = rule if rule.startswith(self.prop) else "%s/%s" % (self.prop, rule)
+        if self.cfg and not r.endswith("]"):
+            r = "%s[%s]" % (r, self.cfg)
+        return r
 
     def ok(self, rule, key, where="", detail="", trivial=False, cls=None):
         self.inst(rule, key, "ok", where, detail, trivial, cls)
 
     def violation(self, rule, key, where="", detail=""):
+        if self.cfg:
+            base = re.sub(r"\[[^\]]*\]$", "", rule)
+            k = "%s|%s" % (base, re.sub(r"\s+", "_", key))
+            if k in self.cfg_na.get(self.cfg, ()) or k.split("/", 1)[-1] in self.cfg_na.get(self.cfg, ()):
+                self.inst(rule, key, "note", where, "not applicable in configuration %s (feature compiled out): %s" % (self.cfg, detail[:120]), cls="n/a-config")
+                return
         self.inst(rule, key, "violation", where, detail)
 
     def reviewed(self, rule, key, where="", detail=""):
@@ -72,6 +83,8 @@ class Report:
 
     def floor(self, rule, minimum, why=""):
         """fail closed: `rule` must have matched at least `minimum` instances (counted by hand on the pinned tree)"""
+        if self.cfg:
+            return      # floors are hand counts of the default configuration; the default run already enforces them
         self.floors[self._rn(rule)] = (minimum, why)
 
     def note(self, text):
